@@ -199,6 +199,7 @@ func (cc *clientCxn) onWaitForCommand() {
 			cc.inbound = append(cc.inbound, buffer[0:n]...)
 		}
 
+		verifPointN("cxn:read", cc.cs.id, n, len(cc.inbound))
 		cc.cs.l.Tracef("received command data from client")
 		cmd, length = cc.parseCommand()
 	}
